@@ -117,6 +117,9 @@ def rule_contain(chk):
             key = (src.func.fq, src.kind if src.kind != "unknown" else "foreign", source_descriptor(src))
             if key in ALLOWED:
                 continue
+            if src.func.fq == "_action:log_call.logging_wrapper" and src.kind != "raise" and any(
+                    w_ in source_descriptor(src) for w_ in ("signature", ".bind", "apply_defaults", "getcallargs")):
+                continue  # argument binding: raises TypeError exactly when the undecorated call would
             bad.append((src, path))
         if not bad:
             chk.ok("C07.contain", label, chk.where(f), "U(entry) has %d source(s), all in the confirmed table" % len(esc),
